@@ -224,7 +224,7 @@ func Commands() map[string]func() {
 				fmt.Printf("%s\x00", a)
 			}
 		},
-		// hpid FILE [exit-status]: writes its pid, then blocks until SIGINT or SIGQUIT; records
+		// hpid FILE [exit-status [delay-ms]]: writes its pid, then blocks until SIGINT or SIGQUIT; records
 		// the time of the signal in FILE.sig and exits a little later, so that code
 		// which forgets to wait for it is caught deterministically
 		"hpid": func() {
@@ -233,7 +233,13 @@ func Commands() map[string]func() {
 			os.WriteFile(os.Args[1], []byte(strconv.Itoa(os.Getpid())), 0o666)
 			s := <-c
 			os.WriteFile(os.Args[1]+".sig", []byte(fmt.Sprintf("%v %d", s, time.Now().UnixNano())), 0o666)
-			time.Sleep(250 * time.Millisecond)
+			delay := 250
+			if len(os.Args) > 3 {
+				if d, err := strconv.Atoi(os.Args[3]); err == nil {
+					delay = d
+				}
+			}
+			time.Sleep(time.Duration(delay) * time.Millisecond)
 			st := 0
 			if len(os.Args) > 2 {
 				st, _ = strconv.Atoi(os.Args[2])
